@@ -55,7 +55,12 @@ func renderSimple(bs *BookSpec) string {
 		for _, t := range toks {
 			out = append(out, strings.TrimPrefix(t, "\x00"))
 		}
-		sb.WriteString(strings.Join(out, " "))
+		// the shipped books write the moves of a line without separators
+		sep := " "
+		if bs.Decor&(1<<40) != 0 {
+			sep = ""
+		}
+		sb.WriteString(strings.Join(out, sep))
 		sb.WriteString("\n")
 	}
 	return sb.String()
